@@ -349,7 +349,7 @@ def table_cases(ctx, rng):
 def run(ctx):
     rng = ctx.rng
     drv = []
-    for k in range(ctx.n(40, 400)):
+    for k in range(ctx.n(70, 400)):
         plan_case(ctx, rng, k, drv)
     for k in range(ctx.n(10, 80)):
         orbit_case(ctx, rng, k)
